@@ -74,6 +74,11 @@ impl Renderer {
             Exp::Iff(a, b) => format!("{} {} {}", self.atom(a), if sym { "<->" } else { "iff" }, self.atom(b)),
             Exp::UnOp(UnOp::Neg, i) => format!("-{}", self.atom(i)),
             Exp::UnOp(UnOp::Not, i) => format!("{}{}", if sym { "!" } else { "not " }, self.atom(i)),
+            Exp::BinOp(BinOp::Div, a, b) if !sym && add_chain(a).len() >= 2 && matches!(&**b, Exp::Number(n) if *n == add_chain(a).len() as f64) => {
+                // (t1 + ... + tn) / n is the avg block (the Symbols spelling keeps the explicit division)
+                let terms = add_chain(a);
+                format!("avg{{ {} }}", terms.iter().map(|x| self.exp(x)).collect::<Vec<_>>().join(", "))
+            }
             Exp::BinOp(op, a, b) => {
                 // implicit multiplication: positive literal times variable or parenthesis
                 if sym && *op == BinOp::Mul {
@@ -100,6 +105,18 @@ impl Renderer {
                 format!("{} {} {}", self.atom(a), o, self.atom(b))
             }
         }
+    }
+}
+
+/// the terms of a left-nested sum
+fn add_chain(e: &Exp) -> Vec<&Exp> {
+    match e {
+        Exp::BinOp(BinOp::Add, a, b) => {
+            let mut v = add_chain(a);
+            v.push(b);
+            v
+        }
+        other => vec![other],
     }
 }
 
@@ -362,7 +379,7 @@ pub fn run(mut run: Run) -> ! {
     let quick = run.quick();
     let depth = if quick { 1 } else { 2 };
     let ncores = crate::props::c01::cores().len();
-    run.rule = format!("generator-AST models over bounded declarations (objective family: min/max of {ncores} cores in every chain of <= {depth} contexts x 4 declaration sets x 5 side-constraint sets; constraint family: the C01 core-in-context constraints with bounded declarations and objective max x / satisfy) are rendered to source TEXT in 3 spelling classes (keywords with explicit operators; symbolic aliases && || ! -> <-> with implicit multiplication and 'subject to'; fractional literals moved into where-constants with named rows and all/any blocks) and solved with RoocSolver::try_new(text).solve_using(auto_solver); judged by an independent interpreter of the AST (exact optimum over the discrete domains x breakpoints of the continuous variable); distinct = source texts; non-trivial = a solution was returned");
+    run.rule = format!("generator-AST models over bounded declarations (objective family: min/max of {ncores} cores in every chain of <= {depth} contexts x 4 declaration sets x 5 side-constraint sets; constraint family: the C01 core-in-context constraints with bounded declarations and objective max x / satisfy) are rendered to source TEXT in 3 spelling classes (keywords with explicit operators; symbolic aliases && || ! -> <-> with implicit multiplication and 'subject to'; fractional literals moved into where-constants with named rows and all/any blocks; a sum of n terms divided by n is written as an avg block in the first and third class) and solved with RoocSolver::try_new(text).solve_using(auto_solver); judged by an independent interpreter of the AST (exact optimum over the discrete domains x breakpoints of the continuous variable); distinct = source texts; non-trivial = a solution was returned");
     run.assume("reference interpreter = refsem evaluator + breakpoint enumeration: a piecewise-linear objective over a closed bounded piecewise-linear set attains its optimum at a breakpoint; at most one continuous variable per model; tolerance 1e-6");
     let n2 = c02::family_size_pub(depth, quick);
     run.family("O-objective-texts", n2, move |i, l| {
